@@ -112,12 +112,47 @@ def r2(cx, rec):
         rec.need(cb in R.reach_from(rb), 'reader-no-loop', R, rb, 'after reading, the buffer is not parsed again')
 
 
-def is_available(F, e):
+def available_expr(F, e):
+    """e is `buffer length - cursor position` of one cursor, written in place or through a small helper"""
+    x = mirq.init_of(e)
+    for _ in range(6):
+        if x[0] == 'call' and x[1] in F.fns and x[4].get('inl') is not None:
+            x = x[4]['inl']
+        elif x[0] == 'cast' or (x[0] == 'field' and x[2] == '0'):
+            x = x[1]
+        else:
+            break
+    if not (x[0] == 'binop' and x[1].startswith('Sub')):
+        return False
+    a, b = mirq.init_of(x[2]), mirq.init_of(x[3])
+    la = [y for y in walk(a, inl=False) if y[0] == 'call' and y[4].get('name') == 'len']
+    ga = [y for y in walk(a, inl=False) if y[0] == 'call' and y[4].get('name') == 'get_ref']
+    pb = [y for y in walk(b, inl=False) if y[0] == 'call' and y[4].get('name') == 'position']
+    return bool(la and ga and pb) and show(ga[0][2][0]) == show(pb[0][2][0])
+
+
+def avail_params(F, f):
+    """names of the parameters of f that receive the number of buffered bytes at every call site"""
+    cache = F.__dict__.setdefault('_avail_params', {})
+    if f.path in cache:
+        return cache[f.path]
+    names = [n for n, l, t in C.params_of(f)]
+    ok = [True] * len(names)
+    cs = C.callers(F, f.path)
+    for g, bb in cs:
+        args = g.expr_call(bb)[2]
+        for i in range(len(names)):
+            if i >= len(args) or not available_expr(F, args[i]):
+                ok[i] = False
+    cache[f.path] = {n for n, o in zip(names, ok) if o} if cs else set()
+    return cache[f.path]
+
+
+def is_available(F, e, f=None):
     p = access_path(e) or ''
-    if 'available' in p:
+    if f is not None and p in avail_params(F, f):
         return True
-    e = mirq.init_of(e)
-    return e[0] == 'call' and e[1] in F.fns and available_fn_ok(F, F.fn(e[1]))
+    return available_expr(F, e)
 
 
 def equalities(f, target_bb):
@@ -164,10 +199,10 @@ def avail_guard(F, f, target_bb, value_expr):
         if conj and e[1] != 'Ge':
             continue
         a, b, op = e[2], e[3], e[1]
-        if is_available(F, b) and not is_available(F, a):
+        if is_available(F, b, f) and not is_available(F, a, f):
             a, b = b, a
             op = {'Ge': 'Le', 'Le': 'Ge', 'Lt': 'Gt', 'Gt': 'Lt'}[op]
-        if not is_available(F, a):
+        if not is_available(F, a, f):
             continue
         if subst(C07.lin(b), env) != want or want[0] is None:
             continue
@@ -272,8 +307,7 @@ def r3(cx, rec):
             for bi, si, oe in oks:
                 val = oe[4][0][1]
                 c, var = C07.lin(val)
-                params = [x['n'] for x in chk.raw['vars'] if 'arg' in x]
-                if any('available' in p for p in params):
+                if avail_params(F, chk):
                     g = avail_guard(F, chk, bi, val)
                     rec.site(chk, bi, '%s::check -> Ok(%s%s) guarded by available >= same: %s' % (name, c, ' + ' + var if var else '', g))
                     allok = allok and g
@@ -287,14 +321,8 @@ def r3(cx, rec):
                     rec.site(chk, bi, '%s::check -> Ok(%s) covered by a getter in parse: %s' % (name, c, ok))
                     rec.need(ok, 'position/%s-const-unguarded' % name, chk, bi,
                              '%s::check returns %s%s bytes without anything establishing that many are buffered' % (name, c, ' + ' + var if var else ''))
-            # the `available_data` argument really is the number of buffered bytes
-            for i, a in enumerate(arg[1][2]):
-                pn = [x['n'] for x in chk.raw['vars'] if 'arg' in x]
-                if i < len(pn) and 'available' in pn[i]:
-                    src = a
-                    okp = src[0] == 'call' and src[1] in F.fns and available_fn_ok(F, F.fn(src[1]))
-                    rec.need(okp, 'position/%s-available-arg' % name, P, sp,
-                             'the available-bytes argument of %s::check is %s' % (name, show(src)[:80]))
+            # a check that compares its length with a parameter must be given the number of buffered bytes there: the
+            # parameters compared by `>=`/`<` against the returned size are exactly those avail_params() recognised
             continue
         # computed position (unknown id): needs an explicit guard in parse
         g = avail_guard(F, P, sp, arg)
@@ -613,7 +641,7 @@ def r7b(cx, rec):
         e = hs.cond(sb)[0]
         while e[0] == 'unop':
             e = e[2]
-        if n >= 68 and any('available' in (access_path(x) or '') for x in (e[2], e[3])):
+        if n >= 68 and any((access_path(x) or '') in avail_params(F, hs) for x in (e[2], e[3])):
             bounds = [pb for kind, pb, ops in mirq.panic_sites(hs) if kind == 'bounds']
             g = all(pb in hs.only_via_edge((sb, good)) or pb == good for pb in bounds) and bool(bounds)
             rec.site(hs, sb, 'handshake byte comparisons only after available >= 68: %s' % g)
